@@ -101,7 +101,7 @@ type MapScen struct {
 	Table     TableCond
 	// Cycled: before the scenario's own prologue the map grows and shrinks back to its minimum length
 	// (the scenario starts from a non-initial state: used table, used counter stripes, a resize history)
-	Cycled    bool
+	Cycled bool
 	// GrowOnly: the map is built WithGrowOnly() (never shrinks; Clear must still empty it)
 	GrowOnly  bool
 	Threads   [][]MIn
@@ -216,7 +216,10 @@ func (ms *MapScen) setupRaw(out *MapLike) MState {
 			inTarget++
 		}
 	}
-	growThreshold := policyOf(ms.C).grow
+	growThreshold := 0
+	if ms.Cycled || ms.Table == TGrowArmed || ms.Table == TShrinkArmed {
+		growThreshold = growPolicy(ms.C)
+	}
 	baseG, baseS := int64(0), int64(0)
 	if ms.Cycled {
 		for j := 0; j < slots; j++ {
@@ -323,7 +326,7 @@ func (ms *MapScen) setupRaw(out *MapLike) MState {
 		}
 		putKeys()
 		// anchors keep the size just above the shrink threshold
-		shrinkThreshold := policyOf(ms.C).shrink
+		shrinkThreshold := shrinkPolicy(ms.C)
 		present := 0
 		for k := 0; k < ms.NKeys; k++ {
 			if ms.Init[k] != 0 {
